@@ -14,7 +14,10 @@ entry of the log and what happens there:
                 close after the descriptor was really closed); execution continues in the code under test and every
                 later operation works normally (single-fault assumption).
 
-The file wrapper is unbuffered: the bytes of every write() are in the real file when write() returns, hence the
-content of the scratch directory equals what the operating system would hold.
+Two file models (FaultFS(buffered=...)): unbuffered (default) - the bytes of every write() are in the real file when
+write() returns, every write() is a log entry and the scratch directory equals what the operating system would hold;
+buffered - written data stays in the process until flush() / close() / 8 KiB, like Python's buffered files, so that
+only open / flush / close / rename ... are log entries and a crash loses the pending data (this exposes "rename before
+close"). `python -m verif.faultfs.selftest` checks the machinery itself.
 """
 from .interposer import Crash, Fault, FaultFS, Op, enumerate_faults, describe_fault  # noqa: F401
